@@ -463,6 +463,10 @@ def write_evidence(pid, tier, verif_seed, mod, m, n_viol, extra=None):
         "violations": n_viol,
     }
     path = os.path.join(EVIDENCE, "%s.json" % pid)
+    if os.path.abspath(seams.ELIOT_SRC) != "/repo":
+        # a run against a scratch tree (mutant / seeded change) must not clobber the evidence of /repo
+        os.makedirs("/tmp/esim-evidence", exist_ok=True)
+        path = os.path.join("/tmp/esim-evidence", "%s.json" % pid)
     tmp = path + ".tmp"
     with open(tmp, "w") as f:
         json.dump(doc, f, indent=1, default=str, sort_keys=True)
